@@ -5,7 +5,7 @@
 set -e
 SNAP=/tmp/verif_snap_$$
 git -C /verif worktree add --detach "$SNAP" HEAD -q
-mkdir -p "$SNAP/build"; cp -r /verif/build/obj /verif/build/bin "$SNAP/build/" 2>/dev/null || true
+mkdir -p "$SNAP/build"; cp -al /verif/build/obj /verif/build/bin "$SNAP/build/" 2>/dev/null || true
 "$SNAP/tools/confirm_seeded.py" "$1" "$2" - "$3"
 mkdir -p /verif/seeded
 for d in "$SNAP"/seeded/*; do [ -e "/verif/seeded/$(basename $d)" ] || cp -r "$d" /verif/seeded/; done
